@@ -1024,4 +1024,267 @@ Proof.
     + intros H. apply (Hgo (fun x => x) H). discriminate.
 Qed.
 
+(* ------------------------------------------------------------------ inspectors see the stream *)
+(* when a pass of the loop completes (no exception leaves it), every inspector that was
+   not errored has been fed the chunk; it is errored afterwards iff it raised *)
+Lemma pc_std_full_pass expected idx ss chunk ss' tr :
+  pc_std expected idx ss chunk = (ss', tr, None) ->
+  forall k s, nth_error ss k = Some s -> s_err s = false ->
+    exists s', nth_error ss' k = Some s' /\ s_name s' = s_name s /\
+      s_insp s' = fst (eat (s_insp s) chunk) /\
+      s_err s' = match snd (eat (s_insp s) chunk) with Some _ => true | None => false end.
+Proof.
+  revert idx ss' tr. induction ss as [|s0 rest IH]; intros idx ss' tr; cbn [pc_std].
+  - intros _ k s Hk. destruct k; discriminate.
+  - destruct (s_err s0) eqn:Herr.
+    + destruct (pc_std expected (S idx) rest chunk) as [[rest' tr'] r'] eqn:Hr. intros H; inversion H; subst.
+      intros [|k] s Hk Hs; cbn [nth_error] in *.
+      * inversion Hk; subst. congruence.
+      * eapply IH; eauto.
+    + destruct (feed_slot expected idx s0 chunk) as [[s' ev] r0] eqn:Hf.
+      destruct (feed_slot_spec _ _ _ _ _ _ _ Hf) as (Hn & _ & _ & _ & Heat & _ & Hne & Hee & Hnone).
+      destruct r0 as [e0|]; [intros H; inversion H|].
+      destruct (pc_std expected (S idx) rest chunk) as [[rest' tr'] r'] eqn:Hr. intros H; inversion H; subst.
+      intros [|k] s Hk Hs; cbn [nth_error] in *.
+      * inversion Hk; subst. exists s'. rewrite Heat. cbn [fst snd]. repeat split; auto.
+        destruct (ev_exn ev) as [e1|] eqn:Hx.
+        -- destruct (name_is (s_name s) expected) eqn:Hnx.
+           ++ destruct (Hee e1 eq_refl eq_refl) as (_ & Hbad). discriminate.
+           ++ now destruct (Hne e1 eq_refl eq_refl).
+        -- destruct (Hnone eq_refl) as (He & _). congruence.
+      * eapply IH; eauto.
+Qed.
+
+Notation feed := (feed I eat).
+
+(* wrapper_slots_are_feed: after a run in which every chunk was delivered, an inspector
+   that was not errored at the start holds exactly the state reached by feeding it the
+   delivered chunks up to its first exception, and is errored iff it raised *)
+Theorem wrapper_slots_are_feed : forall cs w w' tr unused,
+  w_run_stop w (map InChunk cs) = (w', tr, cs, None, unused) ->
+  forall k s, nth_error (w_slots w) k = Some s -> s_err s = false ->
+    exists s', nth_error (w_slots w') k = Some s' /\ s_name s' = s_name s /\
+      (s_insp s', s_err s') = feed (s_insp s) cs.
+Proof.
+  induction cs as [|c cs IH]; intros w w' tr unused; cbn [map].
+  - cbn. intros H; inversion H; subst. intros k s Hk Hs. exists s. rewrite Hs. auto.
+  - rewrite w_run_stop_cons. destruct (w_step w (InChunk c)) as [[w1 tr1] o] eqn:Hs.
+    destruct o as [c'|e|]; [| discriminate | apply w_step_identity in Hs; discriminate].
+    destruct (w_run_stop w1 (map InChunk cs)) as [[[[w2 tr2] cs2] stop2] un2] eqn:Hr.
+    intros H; inversion H; subst. clear H.
+    intros k s Hk Hse. cbn [Wrap.w_step] in Hs. rewrite process_chunk_std in Hs.
+    destruct (pc_std (w_expected w) 0 (w_slots w) c) as [[ss t] r] eqn:Hp.
+    destruct r as [e|]; [inversion Hs|]. inversion Hs; subst. clear Hs.
+    destruct (pc_std_full_pass _ _ _ _ _ _ Hp k s Hk Hse) as (s1 & Hk1 & Hn1 & Hi1 & He1).
+    cbn [Wrap.feed]. destruct (eat (s_insp s) c) as [i' oe] eqn:Heat. cbn [fst snd] in *.
+    destruct oe as [e|].
+    + (* raised: errored from now on, never touched again *)
+      assert (Hfix : forall cs0 wa wb trb unb, w_run_stop wa (map InChunk cs0) = (wb, trb, cs0, None, unb) ->
+                nth_error (w_slots wa) k = Some s1 -> nth_error (w_slots wb) k = Some s1).
+      { induction cs0 as [|c0 cs0 IHc]; intros wa wb trb unb; cbn [map].
+        - cbn. intros H; inversion H; subst. auto.
+        - rewrite w_run_stop_cons. destruct (w_step wa (InChunk c0)) as [[wa1 tra1] oa] eqn:Hsa.
+          destruct oa as [ca|ea|]; [| discriminate | apply w_step_identity in Hsa; discriminate].
+          destruct (w_run_stop wa1 (map InChunk cs0)) as [[[[wa2 tra2] csa2] stopa2] una2] eqn:Hra.
+          intros H; inversion H; subst. intros Hka. eapply IHc; eauto.
+          cbn [Wrap.w_step] in Hsa. rewrite process_chunk_std in Hsa.
+          destruct (pc_std (w_expected wa) 0 (w_slots wa) c0) as [[ssa ta] ra] eqn:Hpa.
+          inversion Hsa; subst. cbn [w_slots with_slots].
+          destruct (pc_std_mono _ _ _ _ _ _ _ Hpa k s1 Hka) as (s2 & Hk2 & _ & Hsame). rewrite Hk2.
+          f_equal. apply Hsame. exact He1. }
+      exists s1. split; [eapply Hfix; eauto|]. split; [assumption|]. now rewrite Hi1, He1.
+    + destruct (IH _ _ _ _ Hr k s1 Hk1 He1) as (s2 & Hk2 & Hn2 & Hf2).
+      exists s2. split; [assumption|]. split; [congruence|]. now rewrite Hf2, Hi1.
+Qed.
+
 End WrapProofs.
+
+(* ================================================================== formats / format (C03-facing) *)
+Section FormatProofs.
+Variable I : Type.
+Variable complete : I -> bool.
+Variable fmatch : I -> bool.
+Variable raw_nr raw_r : str.
+
+Notation slot := (slot I).
+Notation wrapper := (wrapper I).
+Notation non_raw := (non_raw I raw_nr).
+Notation is_raw := (is_raw I raw_r).
+Notation all_complete := (all_complete I complete raw_nr).
+Notation matches := (matches I fmatch raw_nr).
+Notation formats := (formats I complete fmatch raw_nr raw_r).
+Notation format := (format I complete fmatch raw_nr raw_r).
+
+(* a decision has been reached: every non-raw inspector is complete, or EOF was signalled *)
+Definition decided (w : wrapper) : bool := all_complete w || w_finished w.
+
+Lemma formats_none w : formats w = None <-> decided w = false.
+Proof.
+  unfold Wrap.formats, decided. destruct (all_complete w), (w_finished w); cbn;
+    try (destruct (matches w)); split; intros; try discriminate; reflexivity.
+Qed.
+
+Lemma formats_some w : decided w = true ->
+  formats w = Some (match matches w with [] => filter is_raw (w_slots w) | ms => ms end).
+Proof.
+  unfold Wrap.formats, decided. intros H.
+  destruct (all_complete w), (w_finished w); cbn in *; try discriminate; destruct (matches w); reflexivity.
+Qed.
+
+(* formats_total: format returns or raises ImageFormatError, nothing else *)
+Theorem format_total w : (exists r, format w = Ok r) \/ format w = Exn ImageFormatError.
+Proof.
+  unfold Wrap.format. destruct (formats w) as [ms|]; [|left; eauto].
+  destruct (1 <? length ms)%nat; [right; reflexivity|]. destruct ms; [right; reflexivity|left; eauto].
+Qed.
+
+Lemma format_spec w :
+  format w =
+  if decided w then
+    match matches w with
+    | [m] => Ok (Some m)
+    | _ :: _ :: _ => Exn ImageFormatError
+    | [] => match filter is_raw (w_slots w) with [m] => Ok (Some m) | _ => Exn ImageFormatError end
+    end
+  else Ok None.
+Proof.
+  unfold Wrap.format. destruct (decided w) eqn:Hd.
+  - rewrite (formats_some w Hd). destruct (matches w) as [|m [|m2 ms]]; cbn; try reflexivity.
+    destruct (filter is_raw (w_slots w)) as [|r [|r2 rs]]; reflexivity.
+  - apply formats_none in Hd. now rewrite Hd.
+Qed.
+
+(* format_some_implies_unique_match *)
+Theorem format_some_implies_unique_match w m : format w = Ok (Some m) ->
+  decided w = true /\
+  (matches w = [m] \/ (matches w = [] /\ filter is_raw (w_slots w) = [m])).
+Proof.
+  rewrite format_spec. intros Hx. destruct (decided w); [|discriminate]. split; [reflexivity|].
+  destruct (matches w) as [|m1 [|m2 ms]].
+  - destruct (filter is_raw (w_slots w)) as [|r [|r2 rs]]; inversion Hx. auto.
+  - inversion Hx. auto.
+  - inversion Hx.
+Qed.
+
+(* two_matches_raise *)
+Theorem two_matches_raise w : decided w = true -> (1 < length (matches w))%nat ->
+  format w = Exn ImageFormatError.
+Proof.
+  intros Hd Hl. rewrite format_spec, Hd. destruct (matches w) as [|m1 [|m2 ms]]; cbn in Hl; try lia. reflexivity.
+Qed.
+
+Lemma two_positions_two_matches w a b l1 l2 l3 :
+  non_raw w = l1 ++ a :: l2 ++ b :: l3 -> fmatch (s_insp a) = true -> fmatch (s_insp b) = true ->
+  (1 < length (matches w))%nat.
+Proof.
+  intros Hn Ha Hb. unfold Wrap.matches. rewrite Hn. rewrite filter_app. cbn [filter]. rewrite Ha.
+  rewrite filter_app. cbn [filter]. rewrite Hb. rewrite !app_length. cbn [length]. rewrite app_length. cbn [length]. lia.
+Qed.
+
+Hypothesis Hraw : raw_nr = raw_r.
+
+Lemma matches_not_raw w m : In m (matches w) -> is_raw m = false /\ fmatch (s_insp m) = true /\ In m (w_slots w).
+Proof.
+  unfold Wrap.matches, Wrap.non_raw. intros H. apply filter_In in H. destruct H as (H1 & H2).
+  apply filter_In in H1. destruct H1 as (H0 & H1). unfold Wrap.is_raw_nr in H1. unfold Wrap.is_raw. rewrite <- Hraw.
+  destruct (beq (s_name m) raw_nr); [discriminate|]. auto.
+Qed.
+
+(* raw_only_when_nothing_matches_and_allowed *)
+Theorem raw_only_when_nothing_matches_and_allowed w m : format w = Ok (Some m) -> is_raw m = true ->
+  matches w = [] /\ In m (w_slots w) /\ decided w = true.
+Proof.
+  intros Hf Hr. destruct (format_some_implies_unique_match w m Hf) as (Hd & [Hm|(Hm & Hrs)]).
+  - exfalso. destruct (matches_not_raw w m) as (H1 & _); [rewrite Hm; left; reflexivity|]. congruence.
+  - repeat split; auto. assert (In m (filter is_raw (w_slots w))) as Hi by (rewrite Hrs; left; reflexivity).
+    apply filter_In in Hi. tauto.
+Qed.
+
+(* raw_never_with_others *)
+Theorem raw_never_with_others w ms : formats w = Some ms -> (exists m, In m ms /\ is_raw m = true) ->
+  matches w = [] /\ Forall (fun m => is_raw m = true) ms.
+Proof.
+  intros Hf (m & Hin & Hr).
+  assert (Hd : decided w = true).
+  { destruct (decided w) eqn:Hd; [reflexivity|]. apply formats_none in Hd. congruence. }
+  rewrite (formats_some w Hd) in Hf.
+  destruct (matches w) as [|m1 ms1] eqn:Hm; inversion Hf as [Hms]; clear Hf.
+  - split; [reflexivity|]. apply Forall_forall. intros x Hx. apply filter_In in Hx. tauto.
+  - exfalso. destruct (matches_not_raw w m) as (H1 & _); [rewrite Hm, Hms; exact Hin|]. congruence.
+Qed.
+
+(* the answer is one of the wrapper's inspectors; so is every element of formats *)
+Theorem format_in_slots w m : format w = Ok (Some m) -> In m (w_slots w).
+Proof.
+  intros Hf. destruct (format_some_implies_unique_match w m Hf) as (_ & [Hm|(_ & Hrs)]).
+  - apply (matches_not_raw w m). rewrite Hm. left; reflexivity.
+  - assert (In m (filter is_raw (w_slots w))) as Hi by (rewrite Hrs; left; reflexivity).
+    apply filter_In in Hi. tauto.
+Qed.
+
+(* without a raw inspector (allowed_formats without 'raw') and nothing matching: ImageFormatError *)
+Theorem no_raw_no_match_raises w : decided w = true -> matches w = [] ->
+  (forall s, In s (w_slots w) -> is_raw s = false) -> format w = Exn ImageFormatError.
+Proof.
+  intros Hd Hm Hno. rewrite format_spec, Hd, Hm.
+  assert (filter is_raw (w_slots w) = []) as ->; [|reflexivity].
+  induction (w_slots w) as [|s l IH]; [reflexivity|]. cbn [filter]. rewrite (Hno s (or_introl eq_refl)).
+  apply IH. intros x Hx. apply Hno. now right.
+Qed.
+
+End FormatProofs.
+
+(* ================================================================== __init__ : allowed_formats *)
+Section InitProofs.
+Variable I : Type.
+
+Lemma mk_slots_names (factory : list (str * I)) allowed :
+  map (@s_name I) (mk_slots I factory allowed) = filter (allowed_key allowed) (map fst factory).
+Proof.
+  unfold mk_slots. rewrite map_map. cbn [s_name].
+  induction factory as [|p l IH]; [reflexivity|]. cbn [filter map]. destruct (allowed_key allowed (fst p)); cbn [map]; now rewrite IH.
+Qed.
+
+Lemma mk_slots_fresh (factory : list (str * I)) allowed s :
+  In s (mk_slots I factory allowed) -> s_err s = false /\ In (s_name s, s_insp s) factory.
+Proof.
+  unfold mk_slots. intros H. apply in_map_iff in H. destruct H as (p & <- & Hp). apply filter_In in Hp.
+  cbn. destruct p; cbn in *. tauto.
+Qed.
+
+(* allowed_formats_respected: with a non-empty allow-list every inspector of the wrapper
+   carries an allowed name; None and [] allow everything *)
+Theorem allowed_formats_respected (factory : list (str * I)) expected allowed s :
+  In s (w_slots (mk_wrapper I factory expected allowed)) ->
+  allowed <> [] -> In (s_name s) allowed.
+Proof.
+  cbn [mk_wrapper w_slots]. intros Hin Hne.
+  assert (In (s_name s) (map (@s_name I) (mk_slots I factory allowed))) as Hn by now apply in_map.
+  rewrite mk_slots_names in Hn. apply filter_In in Hn. destruct Hn as (_ & Hk).
+  unfold allowed_key in Hk. destruct allowed as [|a l]; [congruence|].
+  unfold memb in Hk. apply existsb_exists in Hk. destruct Hk as (x & Hx & Hb). apply beq_eq in Hb. now subst.
+Qed.
+
+Theorem allowed_empty_means_all (factory : list (str * I)) expected :
+  map (@s_name I) (w_slots (mk_wrapper I factory expected [])) = map fst factory.
+Proof.
+  cbn [mk_wrapper w_slots]. rewrite mk_slots_names. cbn [allowed_key].
+  induction (map fst factory) as [|x l IH]; [reflexivity|]. cbn [filter]. now rewrite IH.
+Qed.
+
+(* with distinct names, the inspector carrying a given name splits the collection as the
+   exact-abort theorems require *)
+Lemma unique_name_split (ss : list (slot I)) s n :
+  NoDup (map (@s_name I) ss) -> In s ss -> s_name s = n ->
+  exists pre post, ss = pre ++ s :: post /\ nonexp I (Some n) pre /\ nonexp I (Some n) post.
+Proof.
+  intros Hnd Hin Hn. apply in_split in Hin. destruct Hin as (pre & post & ->). exists pre, post.
+  split; [reflexivity|]. rewrite map_app in Hnd. cbn [map] in Hnd.
+  assert (Hne : forall x, In x pre \/ In x post -> name_is (s_name x) (Some n) = false).
+  { intros x Hx. cbn. destruct (beq (s_name x) n) eqn:Hb; [|reflexivity]. exfalso. apply beq_eq in Hb.
+    apply NoDup_remove_2 in Hnd. apply Hnd. rewrite Hn, <- Hb. apply in_or_app.
+    destruct Hx as [Hx|Hx]; [left|right]; now apply in_map. }
+  split; apply Forall_forall; intros x Hx; apply Hne; auto.
+Qed.
+
+End InitProofs.
